@@ -11,7 +11,7 @@ use crate::vtime::{HOUR, TOL};
 pub fn prop() -> Prop {
   Prop {
     id: "C08",
-    rule: "case = (1..3 independent sources subscribed at t=0, each with its own probe: interval(p), interval_at(now+{-1,0,1,2,3}h, {1,2}h), timer(v,d), timer_at(v, now+{-1,1,2}h), from_future / from_future_result over a scripted future (k self-waking Pending polls, optional wait on the clock, value or error), from_stream / from_stream_result over a scripted stream (items, Pending, waits on the clock, error at position i, end; up to 40 ready items); p,d in {1,2,3,7} ticks; clock script of <= 10 steps: fire the next timer, jump by 1..20 ticks or hours, run the executor; executor prompt (FIFO after every firing), late (runs only at script steps) or any-ready-task-next). \
+    rule: "case = (1..3 independent sources built at t=0 and subscribed at once, each with its own probe (one case in four: interval / timer sources are subscribed later, before a generated script step, and judged by the same oracle with times relative to their subscription): interval(p), interval_at(now+{-1,0,1,2,3}h, {1,2}h), timer(v,d), timer_at(v, now+{-1,1,2}h), from_future / from_future_result over a scripted future (k self-waking Pending polls, optional wait on the clock, value or error), from_stream / from_stream_result over a scripted stream (items, Pending, waits on the clock, error at position i, end; up to 40 ready items); p,d in {1,2,3,7} ticks; clock script of <= 10 steps: fire the next timer, jump by 1..20 ticks or hours, run the executor; executor prompt (FIFO after every firing), late (runs only at script steps) or any-ready-task-next). \
            Oracle per source: interval values are 0,1,2,... consecutive, t0 >= sub+p (interval_at: >= the instant - tolerance), t(k+1) >= t(k)+p, and with the prompt executor t(k) == sub+(k+1)p exactly (interval_at: first tick at the instant, later ones one period apart); timer: exactly [item, complete], not before due, exactly at due when prompt; futures / streams: delivered == scripted values (or error) then the terminal, nothing after, each item not before the clock wait before it, the stream is never polled after it ended. Non-trivial: a clock jump over >= 2 periods, or a Pending before a Ready, or >= 2 sources. Distinct by hash(case).",
     assumptions: &["tick = 1 ns virtual; _at instants are hour-scale offsets of the real Instant::now(), compared with a 10 minute tolerance"],
     parts: vec![Part { name: "sources", run: run_case, tape_len: 128, quick_cases: 600_000, thorough_cases: 12_000_000, exhaustive_depth: None, exhaustive_budget: 0, exh_quick: false }],
@@ -24,6 +24,8 @@ struct Case {
   script: Vec<Step>,
   mode: SchedMode,
   threads: bool,
+  /// script step before which source i is subscribed (0 / missing: at the start); every source is built at t = 0
+  sub_at: Vec<usize>,
 }
 
 fn gen_stream(c: &mut dyn Choices, result: bool) -> Vec<SEv> {
@@ -88,7 +90,15 @@ fn gen_case(c: &mut dyn Choices) -> Case {
       }
     });
   }
-  Case { srcs, script, mode, threads: c.pick(4) == 0 }
+  let threads = c.pick(4) == 0;
+  // (appended picks) one case in four: interval / timer sources are built at t = 0 but subscribed later in the script
+  let mut sub_at = vec![];
+  if len > 1 && c.pick(4) == 3 {
+    for s in &srcs {
+      sub_at.push(if matches!(s, TSrc::Interval(_) | TSrc::IntervalAt(..) | TSrc::Timer(..) | TSrc::TimerAt(..)) { c.pick(len) } else { 0 });
+    }
+  }
+  Case { srcs, script, mode, threads, sub_at }
 }
 
 fn check_src(case: &Case, idx: usize, src: &TSrc, recs: &[Rec], stats: (usize, usize), req: &[u64], step_times: &[u64]) -> Result<(), (String, String)> {
@@ -311,9 +321,9 @@ fn run_case(c: &mut dyn Choices, ctx: &Ctx) -> Outcome {
   let case = gen_case(c);
   let res = guarded_strict(|| {
     if case.threads {
-      crate::threads::exec_sources(&case.srcs, &case.script, case.mode).into_iter().map(|t| (t.recs, (t.stats.polls, t.stats.polls_after_end), t.requested_at_subscribe, t.step_times)).collect::<Vec<_>>()
+      crate::threads::exec_sources(&case.srcs, &case.script, case.mode, &case.sub_at).into_iter().map(|t| (t.recs, (t.stats.polls, t.stats.polls_after_end), t.requested_at_subscribe, t.step_times, t.sub_time)).collect::<Vec<_>>()
     } else {
-      crate::local::exec_sources(&case.srcs, &case.script, case.mode).into_iter().map(|t| (t.recs, (t.stats.polls, t.stats.polls_after_end), t.requested_at_subscribe, t.step_times)).collect::<Vec<_>>()
+      crate::local::exec_sources(&case.srcs, &case.script, case.mode, &case.sub_at).into_iter().map(|t| (t.recs, (t.stats.polls, t.stats.polls_after_end), t.requested_at_subscribe, t.step_times, t.sub_time)).collect::<Vec<_>>()
     }
   });
   let total_advance: u64 = case.script.iter().map(|s| if let Step::Advance(n) = s { *n } else { 0 }).sum();
@@ -333,12 +343,29 @@ fn run_case(c: &mut dyn Choices, ctx: &Ctx) -> Outcome {
     _ => false,
   });
   let nt = jump || pend_first || case.srcs.len() >= 2;
+  if case.sub_at.iter().any(|k| *k > 0) {
+    labels.push("built-early-subscribed-later");
+  }
   let verdict = match &res {
     Err(m) => Verdict::Violation { sig: format!("panic:{}", labels[0]), detail: m.clone() },
     Ok(trs) => {
       let mut v = Verdict::Ok;
-      for (i, (recs, stats, req, st)) in trs.iter().enumerate() {
-        let r = check_src(&case, i, &case.srcs[i], recs, *stats, req, st).and_then(|_| completeness(&case, i, &case.srcs[i], recs, total_advance));
+      for (i, (recs, stats, req, st, sub_time)) in trs.iter().enumerate() {
+        let k = case.sub_at.get(i).cloned().unwrap_or(0);
+        let r = if k == 0 {
+          check_src(&case, i, &case.srcs[i], recs, *stats, req, st).and_then(|_| completeness(&case, i, &case.srcs[i], recs, total_advance))
+        } else {
+          // subscribed before step k at t = sub_time: seen from its subscription the source lives in the rest of the
+          // script - same oracle, times relative to the subscription
+          let view = Case { srcs: case.srcs.clone(), script: case.script[k..].to_vec(), mode: case.mode, threads: case.threads, sub_at: vec![] };
+          let rel: Vec<Rec> = recs.iter().map(|r| Rec { ev: r.ev.clone(), step: r.step, vt: r.vt.saturating_sub(*sub_time) }).collect();
+          let st_rel: Vec<u64> = st[k..].iter().map(|t| t.saturating_sub(*sub_time)).collect();
+          if recs.iter().any(|r| r.vt < *sub_time) {
+            Err((format!("before-subscription:{}", name(&case.srcs[i])), format!("source #{i} was subscribed at t={sub_time} but delivered {:?}", recs.iter().map(|r| format!("{}@t={}", ev_short(&r.ev), r.vt)).collect::<Vec<_>>())))
+          } else {
+            check_src(&view, i, &case.srcs[i], &rel, *stats, req, &st_rel).map_err(|(s, d)| (s, format!("(built at t=0, subscribed at t={sub_time}, times below are relative to the subscription) {d}")))
+          }
+        };
         if let Err((sig, detail)) = r {
           v = Verdict::Violation { sig, detail };
           break;
@@ -350,8 +377,8 @@ fn run_case(c: &mut dyn Choices, ctx: &Ctx) -> Outcome {
   let desc = if ctx.want_desc || matches!(verdict, Verdict::Violation { .. }) {
     Some(json!({
       "sources": case.srcs.iter().map(|s| format!("{s:?}")).collect::<Vec<_>>(),
-      "clock_script": script_short(&case.script), "executor": format!("{:?}", case.mode), "build": if case.threads {"threads"} else {"local"},
-      "delivered": res.as_ref().map(|t| json!(t.iter().map(|(r,_,_,_)| r.iter().map(|x| format!("{}@t={}", ev_short(&x.ev), x.vt)).collect::<Vec<_>>()).collect::<Vec<_>>())).unwrap_or_else(|m| json!({"panic": m})),
+      "clock_script": script_short(&case.script), "subscribed_before_step(0 = at the start)": case.sub_at, "executor": format!("{:?}", case.mode), "build": if case.threads {"threads"} else {"local"},
+      "delivered": res.as_ref().map(|t| json!(t.iter().map(|(r,_,_,_,_)| r.iter().map(|x| format!("{}@t={}", ev_short(&x.ev), x.vt)).collect::<Vec<_>>()).collect::<Vec<_>>())).unwrap_or_else(|m| json!({"panic": m})),
     }))
   } else {
     None
